@@ -8,7 +8,7 @@ import numpy as np
 
 from .util import arr, jsonable
 
-GEOMS = ["lin", "tight", "log", "logedge", "mixedlog", "unb", "mixedunb", "wide", "offcentre", "logdecade", "nicelin"]
+GEOMS = ["lin", "tight", "log", "logedge", "mixedlog", "unb", "mixedunb", "wide", "offcentre", "logdecade", "nicelin", "offset"]
 
 
 def rng_for(seed, prop, idx):
@@ -76,6 +76,12 @@ def gen_bounds(rng, D, geom):
             k_, m_ = int(rng.integers(1, 5)), int(rng.integers(1, 5))
             plb[i], pub[i] = mu_ - ga_, mu_ + ga_
             lb[i], ub[i] = mu_ - k_ * ga_, mu_ + m_ * ga_
+        elif g == "offset":
+            # coordinates large relative to the box width (temperatures in Kelvin, calendar years, ...)
+            c_ = float(rng.choice([300.0, 2010.0, -1500.0, 1e4])) * float(rng.uniform(0.9, 1.1))
+            w = float(rng.uniform(2, 30))
+            lb[i], ub[i] = c_ - w / 2, c_ + w / 2
+            plb[i], pub[i] = lb[i] + 0.2 * w, ub[i] - 0.2 * w
         elif g == "offcentre":
             lo = rng.uniform(-10, 0)
             w = rng.uniform(1, 20)
@@ -90,7 +96,8 @@ def gen_bounds(rng, D, geom):
 
 
 def is_log_coord(lb, ub, plb, pub):
-    return (lb > 0) & (ub > 0) & (plb > 0) & (pub > 0) & (pub / plb >= 10)
+    with np.errstate(all="ignore"):
+        return (lb > 0) & (ub > 0) & (plb > 0) & (pub > 0) & (pub / np.where(plb != 0, plb, np.nan) >= 10)
 
 
 def tmap(x, plb, pub, logm):
@@ -128,6 +135,15 @@ def gen_x0(rng, mode, lb, ub, plb, pub, logm):
         with np.errstate(all="ignore"):
             x = np.where(np.isfinite(lb), lb + 1e-12 * np.maximum(1.0, np.abs(lb)), plb)
         return np.minimum(x, np.where(np.isfinite(ub), ub, np.inf))
+    if mode in ("effub", "efflb"):
+        # just inside the 'effective' bounds (0.1% of the hard range from the bound): not moved by the
+        # constructor, outside the plausible box, a fraction of a search-mesh step from the hard bound
+        rngw = np.where(np.isfinite(ub - lb), ub - lb, 1e3)
+        if mode == "effub":
+            x = np.where(np.isfinite(ub), ub - 1.0001e-3 * rngw, pub)
+        else:
+            x = np.where(np.isfinite(lb), lb + 1.0001e-3 * rngw, plb)
+        return x
     if mode == "outpl":
         # outside plausible but inside hard bounds
         x = np.empty(D)
@@ -145,12 +161,14 @@ def gen_x0(rng, mode, lb, ub, plb, pub, logm):
 
 
 X0MODES = ["none", "in", "centre", "onlb", "onub", "nearlb", "outpl"]
+X0MODES_EXTRA = ["effub", "efflb"]
 
 
 # --------------------------------------------------------------------------
 # targets (functions of the normalised coordinate t)
 
 LANDS = ["quad", "sphere", "l1", "rosen", "stair", "maxkink", "ramp", "needle", "const", "bowl4"]
+LANDS_EXTRA = ["wl1"]
 
 
 def gen_target(rng, D, land, where, tl, tu):
@@ -174,6 +192,8 @@ def gen_target(rng, D, land, where, tl, tu):
         t["A"] = A.tolist()
     elif land == "l1":
         t["scale"] = float(rng.choice([1.0, 50.0]))
+    elif land == "wl1":
+        t["w"] = (10 ** rng.uniform(-1, 1, D)).tolist()  # anisotropic: several poll directions improve by different amounts
     elif land == "stair":
         t["steps"] = float(rng.choice([4.0, 10.0, 40.0]))
     elif land == "const":
@@ -201,6 +221,8 @@ def _eval_land(t, tt):
         return float(d @ d)
     if k == "l1":
         return float(t["scale"] * np.sum(np.abs(d)))
+    if k == "wl1":
+        return float(np.sum(np.asarray(t["w"]) * np.abs(d)))
     if k == "rosen":
         z = 4.0 * d + 1.0  # optimum at d = 0  (z = 1)
         if len(z) == 1:
